@@ -79,31 +79,26 @@ func (c *ThrottlingChecker) DoCheck(_ base.StatNode, batchCount uint32, threshol
 	// The interval between two requests (in nanoseconds).
 	intervalNs := int64(math.Ceil(float64(batchCount) / threshold * float64(c.statIntervalNs)))
 
-	loadedLastPassedTime := atomic.LoadInt64(&c.lastPassedTime)
-	// Expected pass time of this request.
-	expectedTime := loadedLastPassedTime + intervalNs
-	if expectedTime <= curNano {
-		if swapped := atomic.CompareAndSwapInt64(&c.lastPassedTime, loadedLastPassedTime, curNano); swapped {
-			// nil means pass
-			return nil
+	// Reserve the pass time with a CAS loop. (Adding the interval first and
+	// subtracting it again when the wait turns out too long lets a request that
+	// queued in between keep a pass time that the next request is handed again.)
+	for {
+		loadedLastPassedTime := atomic.LoadInt64(&c.lastPassedTime)
+		// Expected pass time of this request.
+		expectedTime := loadedLastPassedTime + intervalNs
+		if expectedTime <= curNano {
+			if atomic.CompareAndSwapInt64(&c.lastPassedTime, loadedLastPassedTime, curNano) {
+				// nil means pass
+				return nil
+			}
+			continue
 		}
-	}
-
-	estimatedQueueingDuration := atomic.LoadInt64(&c.lastPassedTime) + intervalNs - curNano
-	if estimatedQueueingDuration > c.maxQueueingTimeNs {
-		return base.NewTokenResultBlockedWithCause(base.BlockTypeFlow, BlockMsgQueueing, rule, nil)
-	}
-
-	oldTime := atomic.AddInt64(&c.lastPassedTime, intervalNs)
-	estimatedQueueingDuration = oldTime - curNano
-	if estimatedQueueingDuration > c.maxQueueingTimeNs {
-		// Subtract the interval.
-		atomic.AddInt64(&c.lastPassedTime, -intervalNs)
-		return base.NewTokenResultBlockedWithCause(base.BlockTypeFlow, BlockMsgQueueing, rule, nil)
-	}
-	if estimatedQueueingDuration > 0 {
-		return base.NewTokenResultShouldWait(time.Duration(estimatedQueueingDuration))
-	} else {
-		return base.NewTokenResultShouldWait(0)
+		estimatedQueueingDuration := expectedTime - curNano
+		if estimatedQueueingDuration > c.maxQueueingTimeNs {
+			return base.NewTokenResultBlockedWithCause(base.BlockTypeFlow, BlockMsgQueueing, rule, nil)
+		}
+		if atomic.CompareAndSwapInt64(&c.lastPassedTime, loadedLastPassedTime, expectedTime) {
+			return base.NewTokenResultShouldWait(time.Duration(estimatedQueueingDuration))
+		}
 	}
 }
